@@ -146,11 +146,17 @@ class Scene(object):
         table = dict(self.handlers.table)
         if rng.random() < 0.2:
             table[list] = None    # a None entry means "no handler": built-in handling applies
-        kw = {"serialize_handlers": table}
+        late = table and rng.random() < 0.3
+        # (late: the Config is built with the caller's still EMPTY table, the handlers are put into that very dict
+        # afterwards - the dict given to the constructor is the handler table, whatever it holds at that moment)
+        given = {} if late else table
+        kw = {"serialize_handlers": given}
         if self.custom_names and self.via == "config":
             kw["serialize_method"] = self.ser_name
             kw["ignore_attribute"] = self.ign_name
         self.cfg = jsonrpclib.config.Config(**kw)
+        if late:
+            given.update(table)
         self.handlers.config = self.cfg
         self.handled = set(handled)
 
